@@ -437,7 +437,8 @@ class Program:
     @staticmethod
     def splice_star_dicts(kws):
         """f(**dict(**a, k=v), m=w)  ==  f(**a, k=v, m=w);  f(**{"k": v})  ==  f(k=v)."""
-        if not any(k is None and is_term(v) and (v[0] == "dict" or (v[0] == "call" and v[1] == ("glob", "builtins.dict") and not v[2]))
+        if not any(k is None and is_term(v) and ((v[0] == "dict" and any(a is not None for a, _b in v[1]))
+                                                 or (v[0] == "call" and v[1] == ("glob", "builtins.dict") and not v[2]))
                    for k, v in kws):
             return kws
         named, stars = [(k, v) for k, v in kws if k is not None], []
@@ -451,9 +452,12 @@ class Program:
                     stars += [(None, b) for a, b in inner if a is None]
                     continue
             if is_term(v) and v[0] == "dict" and v[1] and all(
-                    a is not None and is_term(a) and a[0] == "const" and isinstance(a[1], str) for a, _b in v[1]) \
-                    and not ({a[1] for a, _ in v[1]} & {a for a, _ in named}):
-                named += [(a[1], b) for a, b in v[1]]
+                    a is None or (is_term(a) and a[0] == "const" and isinstance(a[1], str)) for a, _b in v[1]) \
+                    and any(a is not None for a, _b in v[1]) \
+                    and not ({a[1] for a, _ in v[1] if a is not None} & {a for a, _ in named}):
+                # {**a, "k": v}: the mappings spliced stay star arguments, the string keys become keywords
+                named += [(a[1], b) for a, b in v[1] if a is not None]
+                stars += [(None, b) for a, b in v[1] if a is None]
                 continue
             stars.append((k, v))
         return tuple(sorted(named, key=lambda kv: kv[0])) + tuple(stars)
